@@ -470,3 +470,212 @@ func (l *lazyFmt) keyParts() (string, ival, bool) {
 	}
 	return pre, x, true
 }
+
+// ---- structural view of unrendered formatted strings (sym.SameText, sym.TextSkeleton)
+
+type textTok struct {
+	lit string // literal text (when num == nil)
+	num *ival  // a %d field
+}
+
+// textTokens flattens a string value into literal runs and decimal number
+// fields without rendering the numbers. ok=false if that is not possible.
+func (in *Interp) textTokens(v value, out []textTok) ([]textTok, bool) {
+	addLit := func(s string) {
+		if s == "" {
+			return
+		}
+		if n := len(out); n > 0 && out[n-1].num == nil {
+			out[n-1].lit += s
+		} else {
+			out = append(out, textTok{lit: s})
+		}
+	}
+	switch x := v.(type) {
+	case string:
+		addLit(x)
+		return out, true
+	case iface:
+		if x.t == nil {
+			return out, false
+		}
+		if fn := in.stringerMethod(x); fn != nil {
+			return in.textTokens(in.call(in.top, 0, fn, []value{x.v}), out)
+		}
+		return in.textTokens(x.v, out)
+	case *sstr:
+		if x.b != nil || x.lazy == nil {
+			for _, b := range x.b {
+				if b.t != nil {
+					return out, false
+				}
+			}
+			addLit(in.strApprox(x))
+			return out, true
+		}
+		l := x.lazy
+		if l.sprint {
+			return out, false
+		}
+		f := l.format
+		argi := 0
+		for i := 0; i < len(f); i++ {
+			if f[i] != '%' {
+				addLit(string(f[i]))
+				continue
+			}
+			if i+1 >= len(f) {
+				return out, false
+			}
+			verb := f[i+1]
+			i++
+			if verb == '%' {
+				addLit("%")
+				continue
+			}
+			if argi >= len(l.args) {
+				return out, false
+			}
+			a := l.args[argi]
+			argi++
+			switch verb {
+			case 'd':
+				iv, ok := unwrapIface(a).(ival)
+				if !ok {
+					return out, false
+				}
+				if iv.t == nil {
+					if iv.signed {
+						addLit(fmt.Sprint(iv.sext()))
+					} else {
+						addLit(fmt.Sprint(iv.c))
+					}
+					continue
+				}
+				cp := iv
+				out = append(out, textTok{num: &cp})
+			case 's', 'v':
+				var ok bool
+				out, ok = in.textTokens(a, out)
+				if !ok {
+					return out, false
+				}
+				// re-merge literal runs
+				addLit("")
+			default:
+				return out, false
+			}
+		}
+		return out, true
+	}
+	return out, false
+}
+
+func mergeToks(ts []textTok) []textTok {
+	var out []textTok
+	for _, t := range ts {
+		if t.num == nil && len(out) > 0 && out[len(out)-1].num == nil {
+			out[len(out)-1].lit += t.lit
+			continue
+		}
+		out = append(out, t)
+	}
+	return out
+}
+
+// unambiguous: number fields are separated by literals that neither begin nor
+// end with a character a decimal number could continue with, so the text
+// decomposes uniquely into its literal runs and numbers.
+func unambiguous(ts []textTok) bool {
+	isNumCh := func(c byte) bool { return (c >= '0' && c <= '9') || c == '-' }
+	for i, t := range ts {
+		if t.num == nil {
+			continue
+		}
+		if i > 0 {
+			p := ts[i-1]
+			if p.num != nil || (len(p.lit) > 0 && isNumCh(p.lit[len(p.lit)-1])) {
+				return false
+			}
+		}
+		if i+1 < len(ts) {
+			n := ts[i+1]
+			if n.num != nil || (len(n.lit) > 0 && isNumCh(n.lit[0])) {
+				return false
+			}
+		}
+	}
+	return true
+}
+
+// sameText decides equality of two formatted strings from their structure.
+func (in *Interp) sameText(a, b value) value {
+	ta, oka := in.textTokens(a, nil)
+	tb, okb := in.textTokens(b, nil)
+	if !oka || !okb {
+		return in.strEq(a, b) // falls back to rendering
+	}
+	ta, tb = mergeToks(ta), mergeToks(tb)
+	if !unambiguous(ta) || !unambiguous(tb) {
+		return in.strEq(a, b)
+	}
+	if len(ta) != len(tb) {
+		// different structure: with unambiguous fields the only way to be equal is
+		// a literal digit run on one side standing for a number on the other;
+		// literals here never contain digits next to fields, so render to be exact
+		return in.strEq(a, b)
+	}
+	C := in.p.C
+	conds := []*smt.Term{}
+	for i := range ta {
+		x, y := ta[i], tb[i]
+		if (x.num == nil) != (y.num == nil) {
+			return in.strEq(a, b)
+		}
+		if x.num == nil {
+			if x.lit != y.lit {
+				// literal runs of both sides are delimited by the same number fields;
+				// digits inside literals could re-align them, so be exact unless digit-free
+				if strings.ContainsAny(x.lit+y.lit, "0123456789-") {
+					return in.strEq(a, b)
+				}
+				return false
+			}
+			continue
+		}
+		xt := C.Resize(in.iterm(*x.num), 64, x.num.signed)
+		yt := C.Resize(in.iterm(*y.num), 64, y.num.signed)
+		conds = append(conds, C.Eq(xt, yt))
+	}
+	return mkBool(C.And(conds...))
+}
+
+func (in *Interp) textSkeleton(v value) value {
+	ts, ok := in.textTokens(v, nil)
+	if !ok {
+		panic(abortPath{"unsupported", "TextSkeleton of a string that is not a format of decimal numbers"})
+	}
+	var sb strings.Builder
+	for _, t := range mergeToks(ts) {
+		if t.num != nil {
+			sb.WriteByte('#')
+			continue
+		}
+		// digit runs inside literals are numbers too
+		lit := t.lit
+		for i := 0; i < len(lit); {
+			if (lit[i] >= '0' && lit[i] <= '9') || (lit[i] == '-' && i+1 < len(lit) && lit[i+1] >= '0' && lit[i+1] <= '9') {
+				j := i + 1
+				for j < len(lit) && lit[j] >= '0' && lit[j] <= '9' {
+					j++
+				}
+				sb.WriteByte('#')
+				i = j
+				continue
+			}
+			sb.WriteByte(lit[i])
+			i++
+		}
+	}
+	return sb.String()
+}
